@@ -548,7 +548,7 @@ PLAN = {
     "C07": ((0, 1, 2), [("g11", 20, 200), ("g1", 150, 2000), ("g2", 40, 800), ("g3", 5, 30), ("g5", 40, 800), ("g7", 60, 400), ("g4", 70, 700), ("g3s", 1, 8)]),
     "C08": ((0, 1, 2), [("g5", 90, 2500)]),
     "C09": ((0, 1, 2), [("g7", 200, 3000), ("g1", 100, 1500), ("g5", 30, 400)]),
-    "C10": ((0, 1, 2), [("g6", 620, 4000)]),
+    "C10": ((0, 1, 2), [("g6", 620, 4000), ("g3", 5, 30), ("g3s", 2, 10), ("g4", 14, 140), ("g11", 10, 80), ("g5", 10, 120)]),
     "C11": ((0, 1, 2), [("g3", 7, 40), ("g3s", 3, 16), ("g4", 35, 350)]),
     "C12": ((0,), [("g1", 200, 3000), ("g2", 40, 800), ("g5", 40, 800)]),
     "C13": ((0, 1, 2), [("g1", 200, 3000), ("g2", 40, 800), ("g3", 4, 24), ("g5", 30, 600), ("g10", 12, 60), ("g4", 35, 350), ("g11", 30, 300)]),
